@@ -50,6 +50,9 @@ type World struct {
 	seq      int
 	Inside   map[string]int // lock resource -> holders currently inside a "hold" probe
 	MaxInside map[string]int
+	// exclusion bookkeeping per resource for --hold=[r:]name: writers and readers currently inside
+	insideW, insideR map[string]int
+	ExclViolation    string
 }
 
 // ErrProbe is what a failing probe reports.
@@ -63,7 +66,7 @@ func (w *World) tick() int {
 
 // New bootstraps the application (must run inside a controlled execution).
 func New() (*World, error) {
-	w := &World{Inside: map[string]int{}, MaxInside: map[string]int{}}
+	w := &World{Inside: map[string]int{}, MaxInside: map[string]int{}, insideW: map[string]int{}, insideR: map[string]int{}}
 	mapp, err := goatapp.NewMockupApp(goatapp.Params{})
 	if err != nil {
 		return nil, err
@@ -112,6 +115,7 @@ func (w *World) probe(a app.App, ctx app.IOContext) error {
 		Hold  string `command:"?hold"`
 		Task  string `command:"?task"`
 		Spawn string `command:"?spawn"`
+		Sched string `command:"?gosched"`
 	}
 	if err := ctx.Scope().InjectTo(&deps); err != nil {
 		return err
@@ -121,6 +125,19 @@ func (w *World) probe(a app.App, ctx app.IOContext) error {
 		w.Inside[deps.Hold]++
 		if w.Inside[deps.Hold] > w.MaxInside[deps.Hold] {
 			w.MaxInside[deps.Hold] = w.Inside[deps.Hold]
+		}
+		for _, h := range strings.Split(deps.Hold, ",") {
+			res, reader := strings.TrimPrefix(h, "r:"), strings.HasPrefix(h, "r:")
+			if (reader && w.insideW[res] > 0) || (!reader && w.insideW[res]+w.insideR[res] > 0) {
+				if w.ExclViolation == "" {
+					w.ExclViolation = fmt.Sprintf("%s entered resource %q (reader=%v) while %d writer(s) and %d reader(s) were inside", deps.ID, res, reader, w.insideW[res], w.insideR[res])
+				}
+			}
+			if reader {
+				w.insideR[res]++
+			} else {
+				w.insideW[res]++
+			}
 		}
 	}
 	if deps.Spawn != "" {
@@ -147,8 +164,20 @@ func (w *World) probe(a app.App, ctx app.IOContext) error {
 	for i := 0; i < n; i++ {
 		vsched.Point("probe-yield")
 	}
+	g := 0
+	fmt.Sscanf(deps.Sched, "%d", &g)
+	for i := 0; i < g; i++ {
+		vsched.Yield() // hands the processor over at no preemption cost (runtime.Gosched)
+	}
 	if deps.Hold != "" {
 		w.Inside[deps.Hold]--
+		for _, h := range strings.Split(deps.Hold, ",") {
+			if res := strings.TrimPrefix(h, "r:"); strings.HasPrefix(h, "r:") {
+				w.insideR[res]--
+			} else {
+				w.insideW[res]--
+			}
+		}
 	}
 	w.Events = append(w.Events, Event{w.tick(), "end", deps.ID, deps.Task})
 	switch deps.Fail {
